@@ -168,6 +168,9 @@ def check_target_table(ctx, inst):
     c_atom = good_atoms[0]
     r_atom = ('param', 3)
     obscure_lm = [bi for bi, dt in switch_on(tb, b, lambda d: strip_sites(d) == ('discr', ('param', 4)))]
+    if not obscure_lm:
+        # configuration with a single obscuring action (no encrypt / compress): there is no dispatch, the obscure region is the elide call
+        obscure_lm = [bi for bi, c, t in b.calls() if c is not None and c.name in ('elide', 'new_elided') and strip_sites(tb.call_args(bi)[0]) in (('param', 1),) ]
     recurse_lm = [bi for bi, dt in switch_on(tb, b, lambda d: d[0] == 'discr' and m_call(d[1], name='case', self_suffix='Envelope') is not None)]
     if not obscure_lm or not recurse_lm:
         ctx.lost(inst, 'action dispatch / case dispatch landmarks')
@@ -193,12 +196,6 @@ def check_obscure_region(ctx, inst):
     if b is None:
         return
     tb = TermBuilder(F, b)
-    sw = [bi for bi, dt in switch_on(tb, b, lambda d: strip_sites(d) == ('discr', ('param', 4)))]
-    if len(sw) != 1:
-        ctx.lost(inst, 'action dispatch')
-        return
-    regs = arm_regions(b, sw[0])
-    t = b.term(sw[0])
     action_variants = None
     for a in F.adts:
         if a['path'].endswith('::ObscureAction'):
@@ -206,6 +203,21 @@ def check_obscure_region(ctx, inst):
     if action_variants is None:
         ctx.lost(inst, 'ObscureAction ADT')
         return
+    sw = [bi for bi, dt in switch_on(tb, b, lambda d: strip_sites(d) == ('discr', ('param', 4)))]
+    if len(sw) != 1:
+        if action_variants == ['Elide']:
+            # single action: no dispatch; the obscuring exit must be Elided(digest(self))
+            vals = [(bi, si, t) for bi, si, t in ret_defs(tb) if m_call(t, name='elide', self_suffix='Envelope') is not None or m_call(t, name='new_elided') is not None]
+            good = [x for x in vals if strip_sites(x[2][2][0]) == ('param', 1) or own_digest_of(('param', 1), x[2][2][0])]
+            if good and len(good) == len(vals):
+                ctx.ok(inst, ctx.site(b, good[0][0], good[0][1]), 'single action Elide: the element is replaced by Elided(digest(self))')
+            else:
+                ctx.fail(inst, ctx.site(b), 'single-action configuration: obscuring exit is not elide(self)', key='%s|single' % inst)
+            return
+        ctx.lost(inst, 'action dispatch')
+        return
+    regs = arm_regions(b, sw[0])
+    t = b.term(sw[0])
     tv = dict((v, bb) for v, bb in t['targets'])
     for idx, name in enumerate(action_variants):
         if idx not in tv:
